@@ -673,6 +673,67 @@ Definition wf_refs (h : heap) (b : nat) : bool :=
   forallb one_href h &&
   no_href (getn h b).
 
+(* the Body element is nobody's child *)
+Definition body_top (h : heap) (b : nat) : bool :=
+  forallb (fun nd => negb (existsb (Nat.eqb b) (n_kids nd))) h.
+
+(* the one-dimensional arrayType of a node, if any *)
+Definition aty1 (l : list attr) : option attr :=
+  match get_ns NM_ATY NS_ENC l with
+  | Some a => if one_dim a then Some a else None
+  | None => None
+  end.
+
+Definition attr_beq (a b : attr) : bool :=
+  N.eqb (a_ns a) (a_ns b) && N.eqb (a_name a) (a_name b) && str_eqb (a_val a) (a_val b) &&
+  opt_eqb qn_eqb (a_q a) (a_q b).
+
+(* children ids are nodes of the heap *)
+Definition rangeb (h : heap) : bool :=
+  forallb (fun nd => forallb (fun c => Nat.ltb c (length h)) (n_kids nd)) h.
+
+(* a child without xsi:type of its own that several nodes share: they agree
+   on the type arrayType gives it (so the order in which Encoded.applyaty
+   reaches it does not matter) *)
+Definition consb (h : heap) : bool :=
+  forallb (fun p1 =>
+    forallb (fun c =>
+      has_type (n_attrs (getn h c)) ||
+      forallb (fun p2 =>
+        negb (existsb (Nat.eqb c) (n_kids p2)) ||
+        opt_eqb attr_beq (option_map type_attr (aty1 (n_attrs p1))) (option_map type_attr (aty1 (n_attrs p2)))) h)
+      (n_kids p1)) h.
+
+Definition heap_ok (h : heap) : bool := rangeb h && consb h.
+
+Fixpoint height (t : tree) : nat :=
+  match t with T _ _ _ _ ks => Datatypes.S (fold_right (fun k m => Nat.max (height k) m) O ks) end.
+
+(* "t written with some of its values out of line": node n of the heap either
+   IS the element (no href; its children written the same way) or is a bare
+   reference (nothing but href) to a catalogued element that carries the
+   element's attributes (besides its id), text and children.  Any subset, any
+   sharing, any nesting, any ids. *)
+Fixpoint outl (cat : catalog) (h : heap) (t : tree) (n : nat) {struct t} : Prop :=
+  match t with
+  | T ns nm attrs tx ks =>
+      let nd := getn h n in
+      let outl_list :=
+        (fix go (ts : list tree) (cs : list nat) {struct ts} : Prop :=
+           match ts, cs with
+           | [], [] => True
+           | t' :: ts', c :: cs' => outl cat h t' c /\ go ts' cs'
+           | _, _ => False
+           end) in
+      n_ns nd = ns /\ n_name nd = nm /\
+      ((get_any NM_HREF (n_attrs nd) = None /\ n_attrs nd = attrs /\ n_text nd = tx /\ outl_list ks (n_kids nd))
+       \/
+       (exists hr m, n_attrs nd = [hr] /\ a_name hr = NM_HREF /\ n_kids nd = [] /\
+                     cat_get cat (a_val hr) = Some m /\
+                     attrs = filter (fun a => negb (is_named NM_ID a)) (n_attrs (getn h m)) /\
+                     tx = n_text (getn h m) /\ outl_list ks (n_kids (getn h m))))
+  end.
+
 (* ------------------------------------------------------------------ *)
 (* cases: what the harness hands over                                  *)
 (* ------------------------------------------------------------------ *)
@@ -721,7 +782,13 @@ Definition mr_spec_ok (c : mcase) : bool := mr_same c && mr_shows c && mr_inline
 Definition mr_guard (c : mcase) : bool :=
   match resp_of c with
   | None => false
-  | Some r => wf_refs (c_out c) (c_out_body c) && first_root_is (c_out c) (c_out_body c) r
+  | Some r =>
+      wf_refs (c_out c) (c_out_body c) && body_top (c_out c) (c_out_body c) &&
+      first_root_is (c_out c) (c_out_body c) r &&
+      match process (c_fuel c) (c_out c) (c_out_body c) with
+      | Some h' => heap_ok h'
+      | None => false
+      end
   end.
 
 (* the theorem's own instance, evaluated: model on the heap = spec on the tree *)
